@@ -84,8 +84,10 @@ def DL.find (name : String) : DL → Option (TD × DChoice)
 
 /-! ## `seen` -/
 
+/-- what `seen` holds for a key (see `Entry`): a structType whose `fields` are not assigned yet, with its construction-only
+marker `structType.root`, or a finished one (`root == nil`) -/
 inductive DEntry where
-  | building
+  | building (root : TD × Bool)
   | done (fs : DL)
   deriving DecidableEq, Repr
 
@@ -137,13 +139,16 @@ def mapKeyDec (env : Env) (k : TD) : Option DChoice :=
   else none
 
 abbrev DCodecFn := TD → Bool → DSeen → Option (DChoice × DSeen)
-abbrev DStructFn := TD → Bool → DSeen → Option (DEntry × DSeen)
+/-- `constructStructType(t, seen, canAddr, root)`: `root = none` for the type of a regular field or value -/
+abbrev DStructFn := TD → Bool → Option Key → DSeen → Option (DEntry × DSeen)
+/-- `appendStructFields(nil, t, 0, seen, canAddr, root)` -/
+abbrev DListFn := TD → Bool → Key → DSeen → Option (DL × DSeen)
 
 /-- go: json.appendStructFields, the `stringify` block (decode side): the wrapper goes around the decoder of the FIELD
 type (a pointer decoder for `*T`); the second `constructCodec(f.Type, …)` of the encode half is part of the traversal -/
 def stringifyDecF (codec : DCodecFn) (env : Env) (canAddr : Bool) (ft : TD) (c : DChoice) (seen : DSeen) :
     Option (DChoice × DSeen) :=
-  let typ := match ft with | .ptr e => e | t => t
+  let typ := peel ft
   let u := under env typ
   let q := if isIntKind u then DChoice.quotedInt c
     else if isScalarKind u then .quoted c
@@ -154,20 +159,37 @@ def stringifyDecF (codec : DCodecFn) (env : Env) (canAddr : Bool) (ft : TD) (c :
     | none => none
   else some (q, seen)
 
+/-- go: json.appendStructFields, the embedded branch (decode side; see `embeddedF`): the fields promoted from the embedded
+struct type `typ` -/
+def embeddedDecF (strct : DStructFn) (list : DListFn) (typ : TD) (b : Bool) (root : Key) (seen : DSeen) :
+    Option (DL × DSeen) :=
+  match strct typ b (some root) seen with
+  | none => none
+  | some (.done fs, seen) => some (fs, seen)
+  | some (.building r, seen) =>
+    -- `subtype.root != nil`: still being constructed further up the stack, no list of fields yet
+    if r == root then some (.nil, seen)       -- for the same root: a cycle of embedded structs, nothing is promoted
+    else
+      -- the cycle goes through a regular field: the fields are listed a second time, on behalf of the root, while
+      -- `subtype.root` is temporarily `root`
+      match list typ b root (seen.set (typ, b) (.building root)) with
+      | none => none
+      | some (fs, seen) => some (fs, seen.set (typ, b) (.building r))
+
 /-- go: json.appendStructFields (decode side; see `fieldsF`) -/
-def fieldsDecF (codec : DCodecFn) (strct : DStructFn) (env : Env) (canAddr : Bool) : FL → DSeen → Option (DL × DSeen)
+def fieldsDecF (codec : DCodecFn) (strct : DStructFn) (list : DListFn) (env : Env) (canAddr : Bool) (root : Key) :
+    FL → DSeen → Option (DL × DSeen)
   | .nil, seen => some (.nil, seen)
   | .cons name emb str ft rest, seen =>
     let isP := isPtrKind ft
-    let typ := match ft with | .ptr e => e | t => t
+    let typ := peel ft
     if emb && isStructKind (under env typ) then
-      match strct typ (canAddr || isP) seen with
+      -- what an embedded pointer points to is always addressable
+      match embeddedDecF strct list typ (canAddr || isP) root seen with
       | none => none
-      | some (e, seen) =>
-        -- a structType that is still being built has no fields yet
-        let sub := match e with | .done fs => fs | .building => DL.nil
+      | some (sub, seen) =>
         let sub := if isP then sub.mapChoice .embedPtr else sub
-        match fieldsDecF codec strct env canAddr rest seen with
+        match fieldsDecF codec strct list env canAddr root rest seen with
         | none => none
         | some (r, seen) => some (sub.append r, seen)
     else
@@ -177,13 +199,13 @@ def fieldsDecF (codec : DCodecFn) (strct : DStructFn) (env : Env) (canAddr : Boo
         match (if str then stringifyDecF codec env canAddr ft c seen else some (c, seen)) with
         | none => none
         | some (c, seen) =>
-          match fieldsDecF codec strct env canAddr rest seen with
+          match fieldsDecF codec strct list env canAddr root rest seen with
           | none => none
           | some (r, seen) => some (.cons name ft c r, seen)
 
 def DEntry.toChoice (t : TD) (canAddr : Bool) : DEntry → DChoice
   | .done fs => .struct fs
-  | .building => .structRef t canAddr
+  | .building _ => .structRef t canAddr
 
 /-- go: json.constructCodec, the switch on `t.Kind()` (decode side) -/
 def kindDecF (codec : DCodecFn) (strct : DStructFn) (env : Env) (t u : TD) (canAddr : Bool) (seen : DSeen) :
@@ -213,7 +235,7 @@ def kindDecF (codec : DCodecFn) (strct : DStructFn) (env : Env) (t u : TD) (canA
           | none => some (.unsupported, seen)
           | some kc => some (.map kc vc, seen))
   | .struct _ =>
-    (match strct t canAddr seen with
+    (match strct t canAddr none seen with
       | some (e, seen) => some (e.toChoice t canAddr, seen)
       | none => none)
   | .ptr e =>
@@ -243,32 +265,47 @@ def codecDecF : Nat → Env → TD → Bool → DSeen → Option (DChoice × DSe
       if named && (seen.find (t, false)).isSome then some (.recur t canAddr, seen)
       else
         match kindDecF (codecDecF fuel env) (structDecF fuel env) env t (under env t) canAddr
-            (if named then seen.set (t, false) .building else seen) with
+            (if named then seen.set (t, false) (.building (t, false)) else seen) with
         | none => none
         | some (c, seen) =>
           some (unmarshalerOverride env t c, if named then seen.erase (t, false) else seen)
-/-- go: json.constructStructType (decode side) -/
-def structDecF : Nat → Env → TD → Bool → DSeen → Option (DEntry × DSeen)
-  | 0, _, _, _, _ => none
-  | fuel + 1, env, t, canAddr, seen =>
+/-- go: json.constructStructType (decode side): THE structType of (t, canAddr) within one construction; a new one is
+marked with the root it is being embedded in, with itself if none, until its list of fields is complete -/
+def structDecF : Nat → Env → TD → Bool → Option Key → DSeen → Option (DEntry × DSeen)
+  | 0, _, _, _, _, _ => none
+  | fuel + 1, env, t, canAddr, root, seen =>
     match seen.find (t, canAddr) with
     | some e => some (e, seen)
     | none =>
-      match fieldsDecF (codecDecF fuel env) (structDecF fuel env) env canAddr (fieldsOf env t)
-          (seen.set (t, canAddr) .building) with
+      let r := root.getD (t, canAddr)
+      match fieldsDecF (codecDecF fuel env) (structDecF fuel env) (listDecF fuel env) env canAddr r (fieldsOf env t)
+          (seen.set (t, canAddr) (.building r)) with
       | none => none
       | some (fs, seen) => some (.done fs, seen.set (t, canAddr) (.done fs))
+/-- go: json.appendStructFields(nil, t, 0, seen, canAddr, root), decode side: the second listing -/
+def listDecF : Nat → Env → TD → Bool → Key → DSeen → Option (DL × DSeen)
+  | 0, _, _, _, _, _ => none
+  | fuel + 1, env, t, canAddr, root, seen =>
+    fieldsDecF (codecDecF fuel env) (structDecF fuel env) (listDecF fuel env) env canAddr root (fieldsOf env t) seen
 end
 
-/-! ## Fuel (proved sufficient: `chooseDec_terminates`) -/
+/-! ## Fuel (proved sufficient: `chooseDec_terminates`)
+The potential of the encode side (`univ`, `keysOf`, `absent`, `foreign`): keys not in `seen` yet; for the current root, the
+struct types under construction that are marked with another root (a second listing marks one of them); the size of the
+type term. -/
 
-def unseenD (env : Env) (seen : DSeen) : Nat :=
-  ((allKeys env).filter fun k => (seen.find k).isNone).length
+def absentD (U : List Key) (seen : DSeen) : Nat := (U.filter fun k => (seen.find k).isNone).length
 
-def fuelNeededD (env : Env) (seen : DSeen) (size : Nat) : Nat :=
-  2 * (unseenD env seen * (maxDef env + 2) + size) + 1
+def isForeignD (seen : DSeen) (root : Key) (k : Key) : Bool :=
+  match seen.find k with
+  | some (.building r) => r != root
+  | _ => false
 
-def fuelForD (env : Env) (t : TD) : Nat := fuelNeededD env [] t.size
+def foreignD (U : List Key) (seen : DSeen) (root : Key) : Nat := (U.filter (isForeignD seen root)).length
+
+def fuelForD (env : Env) (t : TD) : Nat :=
+  let U := keysOf (univ env t)
+  2 * (U.length * (U.length + 1) * (maxSize (univ env t) + 2) + t.size) + 1
 
 /-- `constructCodec(t, map[structKey]*structType{}, canAddr)`, decode half -/
 def chooseDec (env : Env) (t : TD) (canAddr : Bool) : DChoice × DSeen :=
